@@ -433,6 +433,13 @@ def main(chk):
     c01.rule_octree(chk)
     c01.rule_level_stencil(chk)
     c01.rule_cell_counts(chk)
+    # the hash tables behind sh / esh / strat_hash keep and find every occupied cell (rule shared with C01)
+    c01.rule_cxx_headers(chk)
+    # whether the neighbours are refreshed before an evaluation is decided by the integrator's request alone (rule shared with C04)
+    spec4 = importlib.util.spec_from_file_location('c04mod', os.path.join(os.path.dirname(os.path.abspath(__file__)), 'c04.py'))
+    c04 = importlib.util.module_from_spec(spec4)
+    spec4.loader.exec_module(c04)
+    c04.rule_forwards(chk)
     # threads never share scratch storage: per-thread slices of the pair vectors are disjoint (rule shared with C02)
     spec2 = importlib.util.spec_from_file_location('c02mod', os.path.join(os.path.dirname(os.path.abspath(__file__)), 'c02.py'))
     c02 = importlib.util.module_from_spec(spec2)
